@@ -175,6 +175,7 @@ func runC09(c *Ctx) {
 	rulePutForwarding(c, "ATOMIC-THROUGH-WRAPPERS")
 	ruleDefer(c, "R-DEFER", pkgs)
 	ruleStaleErr(c, "R-STALE-ERR", pkgs)
+	c09FileLock(c, pkStore)
 	c09ExpectedFromRequest(c, pkStore)
 	c09RevalidateUnconditional(c, pkStore, isMarkerPath)
 	ruleErrUse(c, "R-ERRUSE", pkgs, func(string) (bool, string) { return true, "" }, c15AllowedErrUse)
